@@ -12,9 +12,9 @@ package sim
 
 import (
 	"fmt"
-	"os"
 	"hash/fnv"
 	"math/rand/v2"
+	"os"
 )
 
 // Draw is one recorded decision.
